@@ -20,7 +20,7 @@
 use std::{
     alloc::{Layout, handle_alloc_error},
     ptr::NonNull,
-    sync::{Arc, Mutex},
+    sync::{Arc, Mutex, MutexGuard},
 };
 
 use crate::value::{VTable, vtable::DropFn};
@@ -175,9 +175,7 @@ pub mod boundary {
                 return true;
             }
 
-            #[cfg(feature = "verif-hooks")]
-            crate::verif::before_list_lock(&self.inner.0);
-            let this = self.inner.0.lock().unwrap();
+            let (this, other) = self.inner.lock_both(&other.inner);
 
             // SAFETY: The rawlist represents a slice of T::Transformed so
             // we can safely construct a slice from it's parts as long as we
@@ -188,10 +186,6 @@ pub mod boundary {
                     this.len,
                 )
             };
-
-            #[cfg(feature = "verif-hooks")]
-            crate::verif::before_list_lock(&other.inner.0);
-            let other = other.inner.0.lock().unwrap();
 
             // SAFETY: The rawlist represents a slice of T::Transformed so
             // we can safely construct a slice from it's parts as long as we
@@ -470,12 +464,7 @@ impl PartialEq for ErasedList {
             return true;
         }
 
-        #[cfg(feature = "verif-hooks")]
-        crate::verif::before_list_lock(&self.0);
-        let this = self.0.lock().unwrap();
-        #[cfg(feature = "verif-hooks")]
-        crate::verif::before_list_lock(&other.0);
-        let other = other.0.lock().unwrap();
+        let (this, other) = self.lock_both(other);
 
         if this.len != other.len {
             return false;
@@ -504,6 +493,29 @@ impl PartialEq for ErasedList {
 impl ErasedList {
     pub fn new(vtable: VTable) -> Self {
         Self(Arc::new(Mutex::new(RawList::new(vtable))))
+    }
+
+    /// Lock two different lists
+    ///
+    /// The locks are always taken in the same global order (by address), so
+    /// that two threads locking the same pair of lists in opposite roles
+    /// cannot deadlock. The guards are returned in argument order.
+    ///
+    /// `self` and `other` must not be the same list.
+    fn lock_both<'a>(
+        &'a self,
+        other: &'a Self,
+    ) -> (MutexGuard<'a, RawList>, MutexGuard<'a, RawList>) {
+        debug_assert!(!Arc::ptr_eq(&self.0, &other.0));
+        if Arc::as_ptr(&self.0) < Arc::as_ptr(&other.0) {
+            let a = self.0.lock().unwrap();
+            let b = other.0.lock().unwrap();
+            (a, b)
+        } else {
+            let b = other.0.lock().unwrap();
+            let a = self.0.lock().unwrap();
+            (a, b)
+        }
     }
 
     /// Push a value to this list
